@@ -31,7 +31,7 @@ FLOORS = {
                  'disjunction_cases': 20000},
 }
 BUDGET = {'quick': {'grid_sample': 15000, 'random': 8000, 'hygiene': 60},
-          'thorough': {'grid_sample': None, 'random': 60000, 'hygiene': 400}}
+          'thorough': {'grid_sample': None, 'random': 600000, 'hygiene': 1500}}
 TIMEOUT = {'quick': 900, 'thorough': 7200}
 TOPICS = ('a', 'b', 'c', 'd', 'e', 'g', 'h', 'k')
 
